@@ -285,6 +285,9 @@ func runC22(c *Ctx) {
 			}
 			k := types.ExprString(ix.Index)
 			rhs := as.Rhs[0]
+			if call, isCall := rhs.(*ast.CallExpr); isCall && types.ExprString(call.Fun) == "append" && len(call.Args) > 0 && types.ExprString(call.Args[0]) == types.ExprString(as.Lhs[0]) {
+				return true // extends the row, removes nothing
+			}
 			if id, isID := rhs.(*ast.Ident); isID && len(defs[id.Name]) == 1 {
 				rhs = defs[id.Name][0] // a row built in a local first
 			}
